@@ -489,6 +489,25 @@ def to_case(ap: ArmPath) -> dict:
     return {'reads': reads, 'conds': conds, 'effects': effects, 'extra': extra, 'silent': silent}
 
 
+def split_reads(reads):
+    """operand bytes, stack pops and the rest are independent input streams: only the order inside a stream is behaviour"""
+    def proj(rs, kinds):
+        out = []
+        for r in rs:
+            if r[0] == 'loop':
+                inner = proj(r[2], kinds)
+                if inner:
+                    out.append(('loop', r[1], tuple(inner)))
+            elif r[0] in kinds:
+                out.append(r)
+        return tuple(out)
+    return {'bytes': proj(reads, ('byte', 'list')), 'pops': proj(reads, ('pop',)), 'other': proj(reads, ('peek', 'claimpop'))}
+
+
+def same_case(a, b) -> bool:
+    return split_reads(a['reads']) == split_reads(b['reads']) and a['conds'] == b['conds'] and a['effects'] == b['effects']
+
+
 def show_case(c) -> str:
     def rd(r):
         if r[0] == 'loop':
